@@ -272,11 +272,47 @@ func c17One(o *hx.Out, in c17Input, tags ...string) (err error) {
 			ptab = append(ptab, hx.L(c17F64s(row.Metrics[0].RValues), c17F64s(row.Metrics[1].RValues), hx.F64(p), c17ErrSx(e)))
 			if e != nil {
 				nerr++
+			} else {
+				eff := in.Alpha
+				if eff == 0 {
+					eff = 0.05
+				}
+				switch {
+				case p == eff:
+					o.Count("row_p_equals_alpha")
+				case p < eff && eff-p < 0.0005:
+					o.Count("row_p_within_0.0005_below_alpha")
+				case p > eff && p-eff < 0.0005:
+					o.Count("row_p_within_0.0005_above_alpha")
+				}
 			}
 			if row.Delta == "~" {
 				ntilde++
 			} else {
 				nshown++
+			}
+		}
+	}
+	for _, t := range tables {
+		if len(t.Rows) > 12 && in.Order != "nil" {
+			o.Count("sorted_table_rows>12")
+			seenK, seenN := map[float64]bool{}, map[string]bool{}
+			tieK, tieN := false, false
+			for _, row := range t.Rows {
+				k := math.Abs(row.PctDelta) * float64(row.Change)
+				if seenK[k] {
+					tieK = true
+				}
+				if seenN[row.Benchmark] {
+					tieN = true
+				}
+				seenK[k], seenN[row.Benchmark] = true, true
+			}
+			if tieK && (in.Order == "delta" || in.Order == "rdelta" || in.Order == "rrdelta") {
+				o.Count("sorted_table_rows>12_tied_delta_keys")
+			}
+			if tieN && (in.Order == "name" || in.Order == "rname" || in.Order == "rrname") {
+				o.Count("sorted_table_rows>12_tied_names")
 			}
 		}
 	}
@@ -628,12 +664,220 @@ func c17Collection(r *hx.Rng, big bool) c17Input {
 	return in
 }
 
+
+// ---------- sort stress: 13-40 rows, tied keys mixed with distinct ones ----------
+
+// c17Text renders one configuration: for every (pkg, benchmark) its samples.
+type c17Sample struct {
+	pkg, name, unit string
+	vals            []float64
+}
+
+func c17Text(ss []c17Sample) string {
+	var sb strings.Builder
+	pkg := "\x00"
+	for _, s := range ss {
+		if s.pkg != pkg {
+			pkg = s.pkg
+			sb.WriteString("pkg: " + pkg + "\n")
+		}
+		for _, v := range s.vals {
+			sb.WriteString("Benchmark" + s.name + " 1 " + c17Fmt(v) + " " + s.unit + "\n")
+		}
+	}
+	return sb.String()
+}
+
+func c17SortStress(r *hx.Rng) c17Input {
+	var in c17Input
+	in.Order = []string{"name", "delta", "rname", "rdelta", "rrname", "rrdelta", "delta", "rdelta"}[r.Intn(8)]
+	in.Test = []string{"nodelta", "utest", "ttest", "nodelta", "nil"}[r.Intn(5)]
+	in.Alpha = []float64{0, 0.05, 0.2, 0.5}[r.Intn(4)]
+	in.AlphaS = c17Fmt(in.Alpha)
+	in.GeoMean = r.Chance(0.3)
+	in.NoRange = r.Bool()
+	in.SplitBy = []string{"pkg"}
+	npkg := r.Range(1, 3)
+	if npkg == 1 && r.Bool() {
+		in.SplitBy = []string{}
+	}
+	nrows := r.Range(13, 40)
+	unit := []string{"ns/op", "MB/s", "B/op", "widgets"}[r.Intn(4)]
+	// a few sample profiles: rows sharing a profile have identical statistics,
+	// hence identical deltas (ties under ByDelta); names repeat across
+	// packages (ties under ByName)
+	nprof := r.Range(2, 6)
+	type prof struct{ old, new []float64 }
+	var profs []prof
+	for i := 0; i < nprof; i++ {
+		n := r.Range(3, 7)
+		base := float64(r.Range(10, 1000))
+		shift := []float64{1, 1, 0.5, 2, 1.1, 0.9, 1.01}[r.Intn(7)]
+		var p prof
+		for k := 0; k < n; k++ {
+			p.old = append(p.old, base+float64(r.Range(0, 9)))
+			p.new = append(p.new, base*shift+float64(r.Range(0, 9)))
+		}
+		if r.Chance(0.25) {
+			p.new = append([]float64(nil), p.old...) // equal means: "0.00%" or "~"
+		}
+		profs = append(profs, p)
+	}
+	nnames := (nrows + npkg - 1) / npkg
+	var olds, news []c17Sample
+	rows := 0
+	for pk := 0; pk < npkg && rows < nrows; pk++ {
+		pkg := fmt.Sprintf("p%d", pk)
+		// names in a scrambled order so that sorting has work to do
+		perm := make([]int, nnames)
+		for i := range perm {
+			perm[i] = i
+		}
+		for i := len(perm) - 1; i > 0; i-- {
+			j := r.Intn(i + 1)
+			perm[i], perm[j] = perm[j], perm[i]
+		}
+		for _, i := range perm {
+			if rows >= nrows {
+				break
+			}
+			rows++
+			name := fmt.Sprintf("N%02d", i)
+			var p prof
+			if r.Chance(0.6) {
+				p = profs[r.Intn(len(profs))]
+			} else { // a row of its own
+				n := r.Range(3, 6)
+				base := float64(r.Range(10, 1000))
+				for k := 0; k < n; k++ {
+					p.old = append(p.old, base+float64(r.Range(0, 9)))
+					p.new = append(p.new, base*(0.5+r.Float())+float64(r.Range(0, 9)))
+				}
+			}
+			olds = append(olds, c17Sample{pkg, name, unit, p.old})
+			news = append(news, c17Sample{pkg, name, unit, p.new})
+		}
+	}
+	in.Configs = []c17Config{{Name: "old", Mode: "text", Text: c17Text(olds)}, {Name: "new", Mode: "text", Text: c17Text(news)}}
+	if r.Chance(0.15) { // ByName on a table without deltas
+		in.Configs = append(in.Configs, c17Config{Name: "third", Mode: "text", Text: c17Text(olds)})
+	}
+	return in
+}
+
+// ---------- significance exactly at the threshold ----------
+
+// c17PValues builds the collection once and returns the p-values the test
+// gives on the compared rows (no error, 0 < p < 1).
+func c17PValues(in c17Input) []float64 {
+	c := &benchstat.Collection{DeltaTest: benchstat.NoDeltaTest, SplitBy: in.SplitBy}
+	for _, cf := range in.Configs {
+		c.AddConfig(cf.Name, []byte(cf.Text))
+	}
+	test := c17Test(in.Test)
+	var ps []float64
+	for _, t := range c.Tables() {
+		for _, row := range t.Rows {
+			if len(row.Metrics) != 2 {
+				continue
+			}
+			p, err := test(row.Metrics[0], row.Metrics[1])
+			if err == nil && p > 0 && p < 1 {
+				ps = append(ps, p)
+			}
+		}
+	}
+	return ps
+}
+
+func c17SmallInts(r *hx.Rng, n, lo, hi int) []float64 {
+	var v []float64
+	for i := 0; i < n; i++ {
+		v = append(v, float64(r.Range(lo, hi)))
+	}
+	return v
+}
+
+// c17Threshold: small integer samples; alpha is placed on, just above and
+// just below the unrounded p-value of one row (all print as the same p=0.xxx),
+// or samples are searched until p falls within 0.0005 of a customary alpha.
+func c17Threshold(r *hx.Rng) (c17Input, bool) {
+	var in c17Input
+	in.Test = []string{"utest", "ttest", "ttest"}[r.Intn(3)]
+	in.Order = []string{"nil", "delta", "rdelta"}[r.Intn(3)]
+	in.SplitBy = []string{}
+	in.NoRange = r.Bool()
+	unit := []string{"ns/op", "MB/s", "B/op"}[r.Intn(3)]
+	mk := func() {
+		nb := r.Range(1, 4)
+		var olds, news []c17Sample
+		for b := 0; b < nb; b++ {
+			n1, n2 := r.Range(3, 9), r.Range(3, 9)
+			off := r.Range(0, 6)
+			olds = append(olds, c17Sample{"x", fmt.Sprintf("T%d", b), unit, c17SmallInts(r, n1, 10, 22)})
+			news = append(news, c17Sample{"x", fmt.Sprintf("T%d", b), unit, c17SmallInts(r, n2, 10+off, 22+off)})
+		}
+		in.Configs = []c17Config{{Name: "old", Mode: "text", Text: c17Text(olds)}, {Name: "new", Mode: "text", Text: c17Text(news)}}
+	}
+	if r.Bool() {
+		// alpha placed relative to an observed p
+		for try := 0; try < 50; try++ {
+			mk()
+			ps := c17PValues(in)
+			if len(ps) == 0 {
+				continue
+			}
+			p := ps[r.Intn(len(ps))]
+			switch r.Intn(7) {
+			case 0:
+				in.Alpha = p
+			case 1:
+				in.Alpha = math.Nextafter(p, 2)
+			case 2:
+				in.Alpha = math.Nextafter(p, -1)
+			case 3:
+				in.Alpha = p + 0.0004*r.Float()
+			case 4:
+				in.Alpha = p - 0.0004*r.Float()
+			case 5:
+				in.Alpha = p * (1 + 1e-12)
+			default:
+				in.Alpha = p * (1 - 1e-12)
+			}
+			if in.Alpha == 0 {
+				continue
+			}
+			in.AlphaS = c17Fmt(in.Alpha)
+			return in, true
+		}
+		return in, false
+	}
+	// samples searched for a p within 0.0005 of a customary alpha
+	in.Alpha = []float64{0, 0.05, 0.01, 0.1}[r.Intn(4)]
+	in.AlphaS = c17Fmt(in.Alpha)
+	eff := in.Alpha
+	if eff == 0 {
+		eff = 0.05
+	}
+	for try := 0; try < 4000; try++ {
+		mk()
+		for _, p := range c17PValues(in) {
+			if math.Abs(p-eff) < 0.0005 {
+				return in, true
+			}
+		}
+	}
+	return in, false
+}
+
 func genC17(o *hx.Out, r *hx.Rng, tier string, replay string) error {
-	o.Rule = "collections of 1-4 configurations (same name twice allowed) built through AddConfig/AddFile/AddResults from generated benchmark text: 1-5 (or 6-24) benchmarks x 1-3 units from {ns/op, MB/s, B/op, allocs/op, x-MB/s, widgets, speed, y-ns/op, ns/GC, z-B/op, -MB/s, MB/s-x}, 1-25 runs, missing and repeated benchmarks, outliers, constant/zero/tied/negative samples, ignored and malformed lines, label changes; x {nil, UTest, TTest, NoDeltaTest, two custom tests} x alpha x SplitBy x Order (ByName, ByDelta, Reverse up to twice) x AddGeoMean. non-trivial = at least one table; distinct by input"
+	o.Rule = "collections of 1-4 configurations (same name twice allowed) built through AddConfig/AddFile/AddResults from generated benchmark text: 1-5 (or 6-24) benchmarks x 1-3 units from {ns/op, MB/s, B/op, allocs/op, x-MB/s, widgets, speed, y-ns/op, ns/GC, z-B/op, -MB/s, MB/s-x}, 1-25 runs, missing and repeated benchmarks, outliers, constant/zero/tied/negative samples, ignored and malformed lines, label changes; x {nil, UTest, TTest, NoDeltaTest, two custom tests} x alpha x SplitBy x Order (ByName, ByDelta, Reverse up to twice) x AddGeoMean; plus a sort stress stream (two configurations, 13-40 rows, rows sharing sample profiles and names repeated across packages so that keys tie, every Order) and a threshold stream (small integer samples under U/t-test with alpha on, one ulp around, and within 0.0004 of a row's unrounded p, or samples searched until p is within 0.0005 of alpha 0.05/0.01/0.1). non-trivial = at least one table; distinct by input"
 	n := 1500
 	nbig := 60
+	nsort, nthr := 40, 60
 	if tier == "thorough" {
 		n, nbig = 12000, 600
+		nsort, nthr = 1500, 1500
 	}
 	// fixed small cases first
 	fixed := []c17Input{
@@ -661,5 +905,27 @@ func genC17(o *hx.Out, r *hx.Rng, tier string, replay string) error {
 			return err
 		}
 	}
+	// sort stress: 13-40 rows (sort.Slice and sort.SliceStable part ways beyond 12 elements)
+	for i := 0; i < nsort; i++ {
+		o.Count("stream=sort_stress")
+		if err := c17One(o, c17SortStress(r.Split())); err != nil {
+			return err
+		}
+	}
+	// p-values on and around alpha
+	found := 0
+	for i := 0; i < nthr; i++ {
+		in, ok := c17Threshold(r.Split())
+		if !ok {
+			o.Count("threshold_search_failed")
+			continue
+		}
+		found++
+		o.Count("stream=threshold")
+		if err := c17One(o, in); err != nil {
+			return err
+		}
+	}
+	o.Extra["threshold_cases"] = found
 	return nil
 }
